@@ -386,6 +386,141 @@ def node_lookup(vm, n):
     return 'ok-all-honest' if honest == n else 'ok'
 
 
+# ------------------------------------------------------------------------------------------------ (f) iterative value lookup under faults
+HOLDER_A = (b'\x31' * 48, '44.1.2.3', 5001)
+HOLDER_B = (b'\x32' * 48, '44.1.2.4', 5002)
+PAGE_HOLDERS = [(bytes([0x40 + i]) * 48, '45.0.0.%d' % (i + 1), 6000 + i) for i in range(10)]
+
+
+def _compact(triple):
+    from lbry.dht.serialization.datagram import make_compact_address
+    return bytes(make_compact_address(triple[0], triple[1], triple[2]))
+
+
+class ValueRpcPeer:
+    def __init__(self, net, peer):
+        self.net, self.peer = net, peer
+
+    async def find_value(self, key, page=0):
+        import asyncio
+        from lbry.dht.error import RemoteException
+        how = self.net.behaviour[self.peer.node_id]
+        self.net.probed.append((self.peer.node_id, page))
+        if how == 1:
+            raise asyncio.TimeoutError()
+        if how == 3:
+            raise RemoteException('remote error')
+        self.net.pm.replied.append(self.peer.node_id)
+        if how == 2:
+            return 5                                                        # garbage payload in a well-formed reply
+        contacts = [(t[0], t[1].encode(), t[2]) for t in self.net.triples_known_to(self.peer)]
+        if how == 4:
+            return {b'contacts': contacts}                                  # no token
+        reply = {b'token': b'\x09' * 48, b'contacts': contacts}
+        if how == 5:                                                        # holds the value: two announcers
+            reply[key] = [_compact(HOLDER_A), _compact(HOLDER_B)]
+        elif how == 6:                                                      # hostile: a good announcer next to unusable ones
+            bad = (b'\x00\x00\x00\x00\x00\x50' + b'\x33' * 48,             # address 0.0.0.0, port 80
+                   b'\x7f\x00\x00\x01\x13\x88' + b'\x34' * 48,             # loopback
+                   b'\x2c\x01\x02\x05\x00\x00' + b'\x35' * 48,             # port 0
+                   b'\x2c\x01\x02\x06\x13\x88' + b'\x36' * 20)[self.net.hostile_kind]   # truncated node id
+            reply[key] = [_compact(HOLDER_A), bad]
+        elif how == 7:                                                      # two pages of announcers (K = 8 per page)
+            reply[key] = [_compact(t) for t in (PAGE_HOLDERS[:8] if page == 0 else PAGE_HOLDERS[8:])]
+            reply[b'p'] = 2
+        return reply
+
+
+class ValueProtocol(LookupProtocol):
+    def __init__(self, net):
+        LookupProtocol.__init__(self, net)
+        self.data_store = NoValues()
+
+    def get_rpc_peer(self, peer):
+        return ValueRpcPeer(self.net, peer)
+
+
+class NoValues:
+    def has_peers_for_blob(self, key):
+        return False
+
+
+def value_lookup(vm, n):
+    """An iterative value lookup over n contacts, each without the value / silent / garbage / remote error / reply without token /
+    holding the value / holding it next to an unusable announcer / holding two pages of announcers: the lookup ends and yields only
+    well-formed public announcer addresses that a node really reported, none twice."""
+    from lbry.dht.protocol.iterative_find import IterativeValueFinder
+    from lbry.dht.peer import is_valid_public_ipv4
+    from harness.C01 import LOOP, VM as C01_VM
+    net = LookupNet(n)
+    net.hostile_kind = 0
+    kinds = []
+    for p in net.peers:
+        how = vm.pick('behaviour', 8)
+        net.behaviour[p.node_id] = how
+        kinds.append(how)
+        if how == 6:
+            net.hostile_kind = vm.pick('unusable_announcer', 4)
+    loop = FinderLoop(vm)
+    LOOP[0] = loop
+    C01_VM[0] = vm
+    known = 1 + vm.pick('initially_known', min(n, 2))
+    try:
+        finder = IterativeValueFinder(loop, ValueProtocol(net), b'\x55' * 48, 8, list(net.peers[:known]))
+        finder.__aiter__()
+    except Exception as e:
+        return 'VIOLATION: starting the lookup raised %s' % type(e).__name__
+    yielded = []
+    finished = False
+    for round_no in range(6 * n + 8):
+        steps = 0
+        while finder.iteration_queue.empty():
+            try:
+                more = loop.step()
+            except Exception as e:
+                return 'VIOLATION: the lookup raised %s' % type(e).__name__
+            if not more:
+                break
+            steps += 1
+            if steps > 60 * (n + 1):
+                return 'VIOLATION: the lookup keeps working without ever producing a result or finishing'
+        try:
+            batch = vm.await_(finder.__anext__())
+        except StopAsyncIteration:
+            finished = True
+            break
+        except Hang:
+            return 'VIOLATION: the lookup never finishes (nothing left to run, nothing queued)'
+        except Exception as e:
+            return 'VIOLATION: the lookup raised %s' % type(e).__name__
+        for peer in batch:
+            yielded.append(peer)
+    if not finished:
+        return 'VIOLATION: the lookup does not finish within the bound of rounds'
+    if len(net.probed) > len(set(net.probed)):
+        return 'VIOLATION: a contact was asked twice for the same page'
+    reported = [HOLDER_A, HOLDER_B] + PAGE_HOLDERS
+    seen = []
+    for peer in yielded:
+        triple = (peer.node_id, peer.address, peer.tcp_port)
+        if type(peer.node_id) is not bytes or len(peer.node_id) != 48 or not is_valid_public_ipv4(peer.address) \
+                or type(peer.tcp_port) is not int or not 0 < peer.tcp_port < 65536:
+            return 'VIOLATION: a value lookup yields something that is not a well-formed public peer address'
+        if triple not in reported:
+            return 'VIOLATION: a value lookup yields an announcer no contacted node reported'
+        if triple in seen:
+            return 'VIOLATION: an announcer is yielded twice'
+        seen.append(triple)
+    # hit: when every node is honest (no value / holder / paged holder) everything the holders report is found
+    if all(k in (0, 5, 7) for k in kinds):
+        if 5 in kinds and (HOLDER_A not in seen or HOLDER_B not in seen):
+            return 'VIOLATION: in an all-honest network an announcer reported by a holder is not yielded'
+        if 7 in kinds and len([t for t in PAGE_HOLDERS if t in seen]) != len(PAGE_HOLDERS):
+            return 'VIOLATION: in an all-honest network the second page of announcers is not yielded'
+        return 'ok-all-honest'
+    return 'ok'
+
+
 def sym_setup(vm, job):
     if job.get('family') == 'lookup':
         import asyncio
@@ -585,6 +720,12 @@ def jobs(tier):
     for n in ((2, 3) if tier == 'quick' else (2, 3, 4)):
         out.append(dict(name=f'node-lookup-{n}-contacts', family='lookup', fn='node_lookup', args=(n,), loop_bound=400, max_depth=60, cost=20 * 30 ** (n - 1),
                         bounds=dict(contacts=n, behaviours='honest / silent / garbage payload / remote error / unusable contact triple, per contact',
+                                    completion_order='every order of the outstanding probes', initially_known='1-2 contacts'),
+                        must_reach=('ok', 'ok-all-honest')))
+    for n in ((2,) if tier == 'quick' else (2, 3)):
+        out.append(dict(name=f'value-lookup-{n}-contacts', family='lookup', fn='value_lookup', args=(n,), loop_bound=400, max_depth=80, cost=20 * 60 ** (n - 1),
+                        bounds=dict(contacts=n, behaviours='no value / silent / garbage payload / remote error / reply without token / holder of two '
+                                    'announcers / holder listing an unusable announcer (0.0.0.0, loopback, port 0, short node id) / holder of two pages, per contact',
                                     completion_order='every order of the outstanding probes', initially_known='1-2 contacts'),
                         must_reach=('ok', 'ok-all-honest')))
     out.append(dict(name='duplicated-response', family='duplicate', fn='duplicated_response', args=(), loop_bound=200, max_depth=60, cost=20,
